@@ -741,7 +741,144 @@ def check_C17(tier, seed):
                              'patterns_with_a_data_set_written_in_two_spans': split})
 
 
+
+# ------------------------------------------------------------------------------------------------ C18
+
+def check_C18(tier, seed):
+    t0 = time.time()
+    build('dev')
+    v = Verdict('C18')
+    acc = Acc()
+    q = tier == 'quick'
+    consts = {'PpmSet': ('<-', 'MC_Ppm'), 'StepSet': ('<-', 'MC_Step'), 'AdvSet': '{0, 1, 100, 700}', 'MaxU': 1900, 'Depth': 6 if q else 7}
+    cfg = os.path.join(outdir('cfg'), 'C18-overlay.cfg')
+    write_cfg(cfg, constants=consts, invariants=['InRange'], properties=['Continuous', 'ExactStep', 'Rate', 'ReturnsNow'], view='View', constraint='Bound', action_constraint='Emit')
+    rd = outdir('replay', 'C18-overlay'); vlib.clean_dir(rd)
+    stats, rep = vlib.pipe_tlc('Overlay.tla', cfg, 'C18-overlay', [binpath('overlay'), '--edges', '--seed', str(seed), '--replay-dir', rd], timeout=1500)
+    acc.add('C18-overlay', stats)
+    acc.edges += rep['sequences']
+    acc.samples += rep.get('samples', [])[:3]
+    if stats['violated']:
+        pth = write_tlc_counterexample('C18', 'C18-overlay', stats)
+        v.add({'kind': 'tlc', 'key': 'tlc:' + ','.join(stats['violated']), 'detail': 'TLC: %s violated' % stats['violated'], 'replay': pth})
+    for item in rep.get('violations', []):
+        v.add({'kind': 'mismatch', 'key': 'C18/edge', 'detail': item['detail'], 'replay': item['replay']})
+    # simulation to length 50 on the model, same replay
+    cfg2 = os.path.join(outdir('cfg'), 'C18-overlay-sim.cfg')
+    c2 = dict(consts); c2['Depth'] = 51; c2['AdvSet'] = '{0, 1, 10, 60}'
+    write_cfg(cfg2, constants=c2, invariants=['InRange'], view='View', constraint='Bound', action_constraint='Emit')
+    rd2 = outdir('replay', 'C18-overlay-sim'); vlib.clean_dir(rd2)
+    stats2, rep2 = vlib.pipe_tlc('Overlay.tla', cfg2, 'C18-overlay-sim', [binpath('overlay'), '--edges', '--seed', str(seed + 1), '--replay-dir', rd2], timeout=1500,
+                                 extra=['-simulate', 'num=%d' % (4 if q else 60), '-depth', '50', '-seed', str(seed)])
+    acc.suites.append({'suite': 'C18-overlay-sim', 'edges_replayed': rep2['sequences']})
+    acc.edges += rep2['sequences']
+    for item in rep2.get('violations', []):
+        v.add({'kind': 'mismatch', 'key': 'C18/sim', 'detail': item['detail'], 'replay': item['replay']})
+    # randomised sequences over the full ranges of the property against the exact integer model
+    rr = run_driver('overlay', ['--seed', str(seed), '--runs', '30000' if q else '1000000'], 'C18-random', timeout=3000)
+    acc.suites.append({'suite': 'C18-random', 'sequences': rr['sequences']})
+    acc.edges += rr['sequences']
+    acc.distinct += rr['sequences']
+    acc.samples += rr.get('samples', [])[:2]
+    for item in rr.get('violations', []):
+        v.add({'kind': 'mismatch', 'key': 'C18/random', 'detail': item['detail'], 'replay': item['replay']})
+    acc.distinct += rep['sequences']
+    return finish('C18', tier, seed, 'model_checking', v, acc, t0,
+                  'every edge of the bounded graph of Overlay.tla (sequences of set_frequency / step_clock / advance up to the depth bound) is replayed on a real OverlayClock over a mock '
+                  'underlying clock at three start points of the PTP range; after every operation reading, returned time and time_from_underlying are compared with the exact integer '
+                  'value (tolerance 2 ns + 2^-30 of the elapsed time); plus simulated behaviours of length 50 and random sequences with fractional ppm; every sequence is distinct',
+                  ['TLC and SANY', 'the exact integer model in the harness equals the TLA+ model (cross-checked on every edge)',
+                   'the underlying clock is a mock whose time the harness sets'])
+
+
+
+# ------------------------------------------------------------------------------------------------ C16
+
+def check_C16(tier, seed):
+    t0 = time.time()
+    build('dev')
+    build('release')
+    v = Verdict('C16')
+    acc = Acc()
+    q = tier == 'quick'
+    top = 16777215
+    consts = {'HiSet': '{0, 1, %d}' % top if not q else '{0, %d}' % top, 'LoSet': '{0, 1, %d}' % top, 'NsSet': '{0, 1, 999999999}' if q else '{0, 1, 999999998, 999999999}',
+              'FSet': '{0, 1, 65535}' if q else '{0, 1, 65534, 65535}', 'DHiSet': '{0, 549}' if q else '{0, 1, 549}'}
+    total = {}
+    for prof in ('dev', 'release'):
+        name = 'C16-lattice-' + prof
+        cfg = os.path.join(outdir('cfg'), name + '.cfg')
+        write_cfg(cfg, constants=consts, invariants=['Laws'], action_constraint='Emit')
+        rd = outdir('replay', name); vlib.clean_dir(rd)
+        stats, rep = vlib.pipe_tlc('TimeArith.tla', cfg, name, [binpath('timevec', prof), '--seed', str(seed), '--replay-dir', rd, '--random', '200000' if q else '5000000'], timeout=3000)
+        acc.add(name, stats)
+        acc.edges += rep['vectors']
+        acc.distinct += rep['vectors']
+        acc.suites[-1].update({k: rep[k] for k in rep if k not in ('violations', 'samples')})
+        if prof == 'dev':
+            acc.samples += rep.get('samples', [])[:3]
+        if stats['violated']:
+            pth = write_tlc_counterexample('C16', name, stats)
+            v.add({'kind': 'tlc', 'key': 'tlc:' + ','.join(stats['violated']), 'detail': 'TLC: a law of the limb reference is false on the lattice', 'replay': pth})
+        for item in rep.get('violations', []):
+            v.add({'kind': 'mismatch', 'key': 'C16/' + prof, 'detail': item['detail'], 'replay': item['replay']})
+    return finish('C16', tier, seed, 'exploration', v, acc, t0,
+                  'TLC evaluates the limb reference (TimeArith.tla) on every vector of the lattice {0, 1, max-1, max}^5 x signed durations (second / nanosecond / fraction '
+                  'carries, sign changes, extremes of the PTP range) and checks its algebraic laws; each vector is applied to the real Time/Duration operators in the '
+                  'overflow-checking and the release profile, with operands rebuilt by independent 128-bit integer arithmetic; wire conversions are observed through a real '
+                  'port; the rest of the range is sampled per seed; all i8 log intervals from 2^-64 to 2^63 s are enumerated; every vector is distinct',
+                  ['TLC and SANY', 'three-way agreement is required: limb reference = harness integer arithmetic = statime',
+                   'Time + Duration outside [0, 2^96 ns) has no exact value: the check demands that it does not wrap (statime clamps after fix 3a7f5bf)',
+                   'Duration -> TimeInterval is checked for |d| < 2^46 ns (beyond that the 64-bit interval cannot hold it)',
+                   'log intervals above 2^63 s exceed core::time::Duration / the 96-bit range and are not checked'],
+                  exhaustive=False)
+
+
+
+# ------------------------------------------------------------------------------------------------ C04
+
+def check_C04(tier, seed):
+    t0 = time.time()
+    build('dev')
+    v = Verdict('C04')
+    acc = Acc()
+    q = tier == 'quick'
+    consts = {'Sweep8': ('<-', 'AllOctets'), 'Sweep16': '{0, 1, 255, 256, 32767, 32768, 65534, 65535}' if q else '{0, 1, 2, 255, 256, 257, 4095, 4096, 32767, 32768, 65279, 65280, 65534, 65535}'}
+    name = 'C04-vectors'
+    cfg = os.path.join(outdir('cfg'), name + '.cfg')
+    write_cfg(cfg, constants=consts, invariants=['Laws'], action_constraint='Emit')
+    rd = outdir('replay', name); vlib.clean_dir(rd)
+    stats, rep = vlib.pipe_tlc('Codec.tla', cfg, name, [binpath('codecvec'), '--replay-dir', rd], timeout=3000)
+    acc.add(name, stats)
+    acc.edges += rep['vectors']
+    acc.distinct += rep['vectors']
+    acc.suites[-1].update({k: rep[k] for k in rep if k not in ('violations', 'samples')})
+    acc.samples += rep.get('samples', [])[:3]
+    if stats['violated']:
+        pth = write_tlc_counterexample('C04', name, stats)
+        v.add({'kind': 'tlc', 'key': 'tlc:' + ','.join(stats['violated']), 'detail': 'TLC: a law of the reference codec is false', 'replay': pth})
+    for item in rep.get('violations', []):
+        v.add({'kind': 'mismatch', 'key': item['key'], 'detail': item['detail'], 'replay': item['replay'], 'count': rep['by_kind'].get(item['key'], 1)})
+    # byte-level fuzz: random and mutated buffers against the harness's independent decoder (accept/reject, length, idempotence)
+    fz = run_driver('codecfuzz', ['--seed', str(seed), '--runs', '300000' if q else '20000000'], 'C04-fuzz', timeout=3000)
+    acc.suites.append({'suite': 'C04-fuzz', 'driver': 'harness/src/bin/codecfuzz.rs', 'result': {k: fz[k] for k in fz if k != 'violations'}})
+    acc.edges += fz['buffers']
+    for item in fz.get('violations', []):
+        v.add({'kind': 'mismatch', 'key': item['key'], 'detail': item['detail'], 'replay': item['replay']})
+    return finish('C04', tier, seed, 'exploration', v, acc, t0,
+                  'TLC evaluates the reference codec (Codec.tla, from Clause 13) over enumerated families: every message type x every value of each 8-bit header field, '
+                  'boundary values of 16-bit and wider fields, every value of the one-octet body fields of Announce and Management, 17 TLV suffix layouts (none, several, '
+                  'empty value, odd length, truncated, trailing octets, 900 and 1032 octet values), every messageLength / buffer relation, unknown types; each buffer goes '
+                  'through statime\'s parser and serialiser; plus random and mutated buffers against the harness\'s independent decoder; every vector is distinct',
+                  ['TLC and SANY', 'three-way agreement on accept/reject: Codec.tla = harness decoder (Rust, independent) = statime',
+                   'messageTypeSpecific and controlField are treated as reserved / derived (statime clears the former and recomputes the latter)'],
+                  exhaustive=False)
+
+
 CHECKS = {
+    'C04': check_C04,
+    'C16': check_C16,
+    'C18': check_C18,
     'C17': check_C17,
     'C03': check_C03,
     'C15': check_C15,
